@@ -245,10 +245,10 @@ func RunSMT(o *drv.Out) {
 	cfgs := []cfg{{3, 30, 8, 0}, {4, 30, 10, 0}, {5, 30, 10, 0}, {6, 30, 10, 0}, {8, 40, 10, 120}, {9, 40, 10, 200}, {12, 30, 8, 400}, {16, 20, 8, 600}, {160, 24, 6, 500}}
 	if thorough {
 		for i := range cfgs {
-			cfgs[i].cases *= 6
+			cfgs[i].cases *= 4
 			cfgs[i].commits *= 2
 			if cfgs[i].maxBig > 0 {
-				cfgs[i].maxBig *= 6
+				cfgs[i].maxBig *= 3
 			}
 		}
 	}
